@@ -29,7 +29,7 @@ from dataclasses import dataclass, field
 from typing import Any, Dict, Generic, List, Optional, Tuple, TypeVar, Union
 from apischema import deserializer, serializer, validator as _validator, ValidationError as _VE
 from apischema.conversions import Conversion, LazyConversion
-from apischema.metadata import conversion as _conv_md, validators as _validators_md
+from apischema.metadata import conversion as _conv_md, flatten as _flatten_md, validators as _validators_md
 T = TypeVar("T")
 def _from_csv(s: str) -> List[str]:
     return s.split(",") if s else []
@@ -40,6 +40,8 @@ def _to_csv(l: List[str]) -> str:
 
 # ---------------------------------------------------------------- rendering
 def ann(t, sfx, quoted=False):
+    if t[0] == "flat":
+        t = ["ref", t[1]]
     k = t[0]
     if k in PRIMS:
         return PRIMS[k]
@@ -81,6 +83,8 @@ def render(shape, sfx):
             for fname, ft in sorted(c["fields"], key=lambda f: f[1][0] in ("opt", "csv")):  # defaults last
                 if ft[0] == "csv":
                     out.append(f"    {fname}: List[str] = field(default_factory=list, metadata=_conv_md(_from_csv, _to_csv))")
+                elif ft[0] == "flat":  # flattened field: its properties are merged into the parent's
+                    out.append(f"    {fname}: {ann(ft, sfx)} = field(metadata=_flatten_md)")
                 elif ft[0] == "opt":
                     out.append(f"    {fname}: {ann(ft, sfx)} = None")
                 elif fname in (c.get("md_validators") or {}):
@@ -122,6 +126,8 @@ def render(shape, sfx):
 
 # ---------------------------------------------------------------- ground truth
 def _refs(t, acc):
+    if t[0] == "flat":
+        t = ["ref", t[1]]
     if t[0] == "ref":
         acc.add(t[1])
     elif t[0] == "gen":
@@ -199,7 +205,13 @@ def valid(shape, t, depth, rng, tv=None):
         c = _cls(shape, t[1])
         tv2 = (tv if t[2] == ["tv"] else t[2]) if k == "gen" else tv
         if c["kind"] == "dc":
-            return {fn: valid(shape, ft, depth - 1, rng, tv2) for fn, ft in c["fields"]}
+            out = {}
+            for fn, ft in c["fields"]:
+                if ft[0] == "flat":
+                    out.update(valid(shape, ["ref", ft[1]], depth, rng, tv2))
+                else:
+                    out[fn] = valid(shape, ft, depth - 1, rng, tv2)
+            return out
         if c["kind"] in ("idstr", "idlazy"):
             return rng.choice(["id-1", "id-2", ""])
         if c["kind"] == "wrapof":
@@ -235,7 +247,7 @@ def build(shape, t, d, ns, sfx, tv=None):
         cls = ns[f"{t[1]}_{sfx}"]
         tv2 = (tv if t[2] == ["tv"] else t[2]) if k == "gen" else tv
         if c["kind"] == "dc":
-            return cls(**{fn: build(shape, ft, d[fn], ns, sfx, tv2) for fn, ft in c["fields"]})
+            return cls(**{fn: (build(shape, ["ref", ft[1]], d, ns, sfx, tv2) if ft[0] == "flat" else build(shape, ft, d[fn], ns, sfx, tv2)) for fn, ft in c["fields"]})
         if c["kind"] in ("idstr", "idlazy"):
             return cls(d)
         if c["kind"] == "wrapof":
@@ -342,6 +354,9 @@ def fixed_shapes():
     sh["mdvalidated"] = {"classes": [dict(dc("N", ("a", I), ("b", I)), helper=True), dict(dc("M", ("n", R("N")), ("ns", L(R("N"))), ("m", O(R("M")))), md_validators={"n": "N"}),
                                      dict(dc("H", ("n", R("N")), ("v", I)), md_validators={"n": "N"})],
                          "entries": [R("M"), R("H"), L(R("M"))]}
+    sh["flattened"] = {"classes": [dc("Geo", ("lat", F), ("lng", F)), dc("Address", ("street", S), ("geo", ["flat", "Geo"])),
+                                   dc("Customer", ("name", S), ("addr", ["flat", "Address"]), ("friends", L(R("Customer")))), dc("Shop", ("title", S), ("where", ["flat", "Address"]))],
+                       "entries": [R("Customer"), R("Shop"), R("Address"), L(R("Shop"))]}
     sh["lazyrec"] = {"classes": [dc("Foo", ("elements", L(["union", I, R("Foo")])))], "entries": [R("Foo"), L(R("Foo"))], "lazyrec": "Foo"}
     for n, s in sh.items():
         s["name"] = n
